@@ -130,11 +130,24 @@ func Solve(query string, timeoutS int, all bool, use []string) Verdict {
 	ctx, cancel := context.WithCancel(context.Background())
 	defer cancel()
 	ch := make(chan res, len(bs))
-	for _, b := range bs {
-		go func(b backend) {
+	// staged racing: the first back end gets a head start; the others join only if it has not answered yet
+	for i, b := range bs {
+		delay := time.Duration(0)
+		if i > 0 && !all {
+			delay = 1200 * time.Millisecond
+		}
+		go func(b backend, delay time.Duration) {
+			if delay > 0 {
+				select {
+				case <-ctx.Done():
+					ch <- res{b.name, "skipped", ""}
+					return
+				case <-time.After(delay):
+				}
+			}
 			r, o := runBackend(ctx, b, query, timeoutS)
 			ch <- res{b.name, r, o}
-		}(b)
+		}(b, delay)
 	}
 	v := Verdict{Result: "unknown", All: map[string]string{}}
 	var lastOut string
